@@ -815,6 +815,46 @@ def gen_program(rng, n_chunks=None):
   return chunks
 
 
+# deterministic family, always in the matrix: constructs whose output has to be put into a canonical order by pytype
+# itself (sets iterated while printing / reporting) or that touch printer / loader state surviving between analyses
+FAMILY = [
+    ["from typing import NamedTuple",
+     "class Point(NamedTuple):\n  x: int = 0\n  y: int = 0\n  label: str = ''",
+     "def origin() -> Point:\n  return Point()"],
+    ["import typing",
+     "def pu(x: typing.Union[int, float, str, bytes], y: typing.Union[complex, int, None, str] = None)"
+     " -> typing.Union[float, int, bytes, str]:\n  return x",
+     "def pv(x: typing.Union[bytearray, bytes, str, int], *a: typing.Union[float, int, list, str],"
+     " **k: typing.Union[complex, float, dict, set]):\n  return x",
+     "pw: typing.Union[int, float, str, None, bytes] = 1"],
+    ["import typing",
+     "class A:\n  T = typing.TypeVar('T', bound=int)\n  def f(self, x: T) -> T:\n    return x",
+     "class B:\n  T = typing.TypeVar('T', bound=str)\n  def f(self, x: T) -> T:\n    return x",
+     "def g():\n  T = typing.TypeVar('T', bound=float)\n  def h(x: T) -> T:\n    return x\n  return h",
+     "class D:\n  S = typing.TypeVar('S', int, str)\n  def f(self, x: S) -> S:\n    return x",
+     "class E:\n  S = typing.TypeVar('S', bytes, float)\n  def f(self, x: S) -> S:\n    return x"],
+    ["def helper(x):\n  return x.nope + 1",
+     "def wrapper(x):\n  return helper(x)",
+     "def wrapper2(x):\n  return wrapper(x)",
+     "wrapper(1); wrapper('a'); wrapper(2.0)",
+     "wrapper2(b''); wrapper2([])",
+     "helper(None)"],
+    ["# pytype: features=aaa-b,ccc-d,eee-f",
+     "x = 1  # pytype: disable=foo-bar,baz-qux,abc-def",
+     "y = undefined_y  # pytype: disable=zzz-a,name-error,yyy-b",
+     "from typing import TypedDict",
+     "class P(TypedDict):\n  a: int\n  b: str\n  c: int\n  d: str",
+     "def f(p: P): pass",
+     "f({'x': 1, 'y': 2, 'z': 3})",
+     "p: P = {'q': 1, 'r': 2}"],
+    ["from typing import Any, Callable, Optional, Union",
+     "def ident(x: Any) -> Any:\n  return x",
+     "def cb(f: Callable[[int], Optional[str]], g: Union[int, str]) -> Callable[..., Any]:\n  return f",
+     "table = {}",
+     "def put(k, v):\n  table[k] = v"],
+]
+
+
 def prog_text(chunks):
   return "\n".join(chunks) + "\n"
 
@@ -937,8 +977,12 @@ def k2_matrix(res, rng, tier, disagreements):
   n_prog, seeds = (25, [0, 1, 2, 3]) if tier == "quick" else (300, [0, 1, 2, 3, 4, 5, 6, 7])
   base = common.seed() * 100 + 1
   seeds = [base + s if common.seed() else s for s in seeds]   # other VERIF_SEEDs explore other hash seeds
-  all_progs = {"P%03d" % i: gen_program(rng) for i in range(n_prog)}
-  unrelated = [prog_text(gen_program(rng, 5)) for _ in range(12)]
+  all_progs = {"P%03d" % i: (FAMILY[i] if i < len(FAMILY) else gen_program(rng)) for i in range(n_prog)}
+  # the unrelated analyses that precede a target include modules that use typing members and TypeVars, so that
+  # state surviving in the printer / loader / visitors between analyses has something to carry over
+  unrelated = [prog_text(gen_program(rng, 5)) for _ in range(8)] + [prog_text(FAMILY[5]), prog_text(FAMILY[2]),
+                                                                   prog_text(FAMILY[1]), prog_text(FAMILY[0])]
+  rng.shuffle(unrelated)
   t0 = time.time()
   # thorough: waves of 50 programs (each wave is a complete matrix for its programs) until all 300 are done or
   # the time budget is used up; the number actually covered is what the evidence reports.
